@@ -4,6 +4,7 @@ import (
 	"bytes"
 	"fmt"
 	"os"
+	"os/exec"
 	"path/filepath"
 	"sort"
 	"strings"
@@ -211,6 +212,12 @@ func runSync(r *run) error {
 	}
 	optSets := [][]string{{"-r"}, {"-rt"}, {"-a"}, {"-rlpt"}, {"-rc"}, {"-rtI"}, {"-a", "-c"}, {"-rlptgoD"}, {"-rtc", "-I"}, {"-rp"}}
 	arrs := []string{"pull", "push", "local", "libpull", "libpush"}
+	if _, err := exec.LookPath("rsync"); err == nil {
+		arrs = append(arrs, "tridgepull") // stock rsync as the client of the daemon under test
+		r.notes["stock_rsync_client"] = "present"
+	} else {
+		r.notes["stock_rsync_client"] = "absent (tridgepull arrangement skipped)"
+	}
 	var wg sync.WaitGroup
 	var mu sync.Mutex
 	type job struct {
@@ -233,6 +240,13 @@ func runSync(r *run) error {
 		if t == 2 {
 			src = append(src, nodeSpec{Path: "big-over-unrelated.bin", Type: "f", Data: g.bytes(713933), Mode: 0o644, Mtime: 1_500_000_000})
 		}
+		// a directory two levels down, requested on its own below
+		nestedDir := fmt.Sprintf("nest%d/in ner", t)
+		src = append(src, nodeSpec{Path: fmt.Sprintf("nest%d", t), Type: "d", Mode: 0o755, Mtime: 1_400_000_000},
+			nodeSpec{Path: nestedDir, Type: "d", Mode: 0o755, Mtime: 1_400_000_001},
+			nodeSpec{Path: nestedDir + "/deep.bin", Type: "f", Data: genFileData(g, 700+g.intn(3000)), Mode: 0o644, Mtime: 1_450_000_000},
+			nodeSpec{Path: nestedDir + "/more/leaf.txt", Type: "f", Data: g.bytes(1 + g.intn(300)), Mode: 0o600, Mtime: 1_450_000_001})
+		src = append(src, nodeSpec{Path: nestedDir + "/more", Type: "d", Mode: 0o755, Mtime: 1_400_000_002})
 		srcRoot := filepath.Join(base, fmt.Sprintf("src%d", t))
 		if err := src.materialise(srcRoot); err != nil {
 			return err
@@ -251,13 +265,32 @@ func runSync(r *run) error {
 		if len(dirs) > 1 {
 			shapes = append(shapes, []string{dirs[0], dirs[1] + "/"})
 		}
-		for k := 0; k < 6; k++ {
+		shapes = append(shapes, []string{nestedDir + "/"}, []string{nestedDir})
+		nJobs := 6
+		// the first tree also runs the nested directory through every puller, with and without
+		// trailing slash, in every run (the latter is the listed known finding)
+		type forcedJob struct {
+			arr   string
+			shape []string
+		}
+		var forced []forcedJob
+		if t == 0 {
+			for _, a := range arrs {
+				if a == "pull" || a == "tridgepull" {
+					forced = append(forced, forcedJob{a, []string{nestedDir + "/"}}, forcedJob{a, []string{nestedDir}}, forcedJob{a, []string{""}})
+				}
+			}
+		}
+		for k := 0; k < nJobs+len(forced); k++ {
 			arr := arrs[g.intn(len(arrs))]
 			if k < len(arrs) {
 				arr = arrs[(t+k)%len(arrs)]
 			}
 			shape := shapes[g.intn(len(shapes))]
-			if arr == "pull" && len(shape) > 1 {
+			if k >= nJobs {
+				arr, shape = forced[k-nJobs].arr, forced[k-nJobs].shape
+			}
+			if (arr == "pull" || arr == "tridgepull") && len(shape) > 1 {
 				shape = shape[:1] // one remote source per pull (hostspec per argument)
 			}
 			args := optSets[g.intn(len(optSets))]
@@ -318,7 +351,19 @@ func runSync(r *run) error {
 			r.count("sync/" + j.sp.Arr + "/" + res.Outcome)
 			detail := map[string]any{"arrangement": j.sp.Arr, "args": j.args, "sources": j.srcArg, "err": res.Err, "stderr": tailStr(res.Stderr, 500),
 				"regenerate": fmt.Sprintf("VERIF_SEED=%d ./check C01 (session %s)", r.seed, j.id)}
+			// a daemon asked for a nested path without trailing slash (see known-findings.txt)
+			nestedNoSlash := ""
+			if j.sp.Arr == "pull" || j.sp.Arr == "tridgepull" {
+				for _, a := range j.srcArg {
+					if strings.Contains(a, "/") && !strings.HasSuffix(a, "/") {
+						nestedNoSlash = a
+					}
+				}
+			}
 			if res.Outcome != "ok" {
+				if nestedNoSlash != "" && strings.Contains(res.Stderr, "rejecting unrequested file-list name: "+nestedNoSlash) {
+					detail["shape"] = "daemon-sender nested-source-without-trailing-slash keeps module-relative names (stock client rejects the list)"
+				}
 				r.oracleFail(j.id, "a transfer of a static source tree did not succeed ("+res.Outcome+"): "+res.Err, detail)
 				return
 			}
@@ -348,6 +393,21 @@ func runSync(r *run) error {
 				detail["size"] = len(n.Data)
 			}
 			if bad > 0 {
+				if nestedNoSlash != "" {
+					// exactly the known shape: every selected file sits, intact, under its module-relative path instead
+					all := true
+					for _, n := range j.src {
+						if n.Type == "f" && strings.HasPrefix(n.Path, nestedNoSlash+"/") {
+							got, err := os.ReadFile(filepath.Join(j.sp.Dest, n.Path))
+							if err != nil || !bytes.Equal(got, n.Data) {
+								all = false
+							}
+						}
+					}
+					if all {
+						detail["shape"] = "daemon-sender nested-source-without-trailing-slash keeps module-relative names (files land under " + nestedNoSlash + ")"
+					}
+				}
 				r.oracleFail(j.id, fmt.Sprintf("success reported but %d selected file(s) are missing or differ from the source at the destination", bad), detail)
 			}
 		}(j)
